@@ -246,7 +246,7 @@ func vRunPollVector(v *vPollVector) (out []vPollEvent) {
 		vs[0] = r.out
 		return vs[:1], false
 	}
-	before := 0
+	before, filler := 0, 0
 	op.OutputAck = func(n int) error {
 		now := r.peerInq()
 		acc := now - before
@@ -254,8 +254,8 @@ func vRunPollVector(v *vPollVector) (out []vPollEvent) {
 		if n > 0 {
 			r.out = r.out[n:]
 		}
-		if n < 0 {
-			n = 0
+		if n < 0 && v.Peer != "open" {
+			n = 0 // a send that failed (the peer is gone): the handler acknowledges sendmsg's -1 and reports the hang-up
 		}
 		r.ev("OutputAck", "", n, acc, "")
 		if len(r.out) == 0 {
@@ -305,7 +305,18 @@ func vRunPollVector(v *vPollVector) (out []vPollEvent) {
 	if peerOpen {
 		before = r.peerInq()
 	}
-	if v.Way == "synth" {
+	if v.Way == "synthfull" {
+		// somebody else has filled the send buffer since the kernel reported the descriptor writable: the handler's send gets EAGAIN
+		chunk := make([]byte, 4096)
+		for i := 0; i < 4096; i++ {
+			if n, err := syscall.Write(r.fd, chunk); err != nil || n <= 0 {
+				break
+			}
+		}
+		before = r.peerInq()
+		filler = before
+	}
+	if v.Way == "synth" || v.Way == "synthfull" {
 		bits, hasErr := vFlagBits(v.Flags)
 		r.ev("Inject", "", int(bits), hasErr, "")
 		evs := make([]epollevent, 1)
@@ -328,7 +339,7 @@ func vRunPollVector(v *vPollVector) (out []vPollEvent) {
 	}
 	got := 0
 	if peerOpen {
-		got = r.peerInq()
+		got = r.peerInq() - filler
 	}
 	r.waitHups()
 	time.Sleep(500 * time.Microsecond)
